@@ -792,6 +792,13 @@ def rule_units(ctx, R):
             dl = [l for l in dominating_edge_labels(cfg, b, evr, t.block) if "Vec::is_empty(State::get_stack(STATE," in l and "get_all_stack_index" in l]
             R.check(dl == ["BR[Vec::is_empty(State::get_stack(STATE,%s))]=0" % m0], "units:restore_nonempty", "a restore line is emitted for the stacks that are not empty (an empty `vec![]` line would not even type-check): %s" % [l[-30:] for l in dl], t.where)
         R.check("Num::from_string(x.to_string())" in t.skeleton(), "units:restore_reader", "restored values are read back with Num::from_string (the inverse of the writer, C09)", t.where)
+        # ... all of them, in the order they were written: the emitted line applies no positional adapter or reordering
+        # operation to the literals (the template is text, so the words of A-ORD are looked for in the text)
+        import re as _re
+        from . import order as _order
+        words = set(_re.findall(r"\.([a-z_]+)\(", t.skeleton()))
+        bad = sorted(words & (_order.ADAPTERS | _order.SEQ_OPS))
+        R.check(not bad, "units:restore_in_order", "the emitted restore line reads every literal in the order written (no rev/skip/take/sort.. between `vec![..]` and `collect()`): %s" % bad, t.where)
     R.floor("control_templates", len(find("while state < ")) + len(find("    state = ")) + len(find("Some(")) + len(find("point.insert(")), 4, "templates that emit control targets")
 
 
